@@ -162,7 +162,7 @@ def check_into(rep: Report, tier: str) -> None:
     withf6 = [b for b in behs if b["viol"]]
     rest = [b for b in behs if not b["viol"]]
     rng.shuffle(rest)
-    chosen = withf6 + rest[: (3000 if tier == "quick" else 60000)]
+    chosen = withf6 + rest[: (2000 if tier == "quick" else 60000)]
     n_calls = max(e.get("i", 0) for b in chosen for e in b["h"])
     traces = []
     mism = 0
